@@ -274,8 +274,8 @@ PROPS["C10"] = {
     "modules": ["WhatIs.Props.C10"],
     "theorems": ["WhatIs.C10.scan_eq_flatten", "WhatIs.C10.readDir_sorted", "WhatIs.C10.readDir_perm",
                  "WhatIs.C10.readDir_order_independent", "WhatIs.C10.bad_entries_survive", "WhatIs.C10.recursive_eq_concat",
-                 "WhatIs.C10.dir_without_r_refused", "WhatIs.C10.missing_path_refused", "WhatIs.C10.depth_limit_witness"],
-    "facts": {"cli.maxDepth": 1000},
+                 "WhatIs.C10.dir_without_r_refused", "WhatIs.C10.missing_path_refused", "WhatIs.C10.depth_limit_witness", "WhatIs.C10.scan_cannot_exit", "WhatIs.C10.locked_dir_survives"],
+    "facts": {"cli.maxDepth": 1000, "cli.scanCanExit": False},
     "nontrivial": nt_c10,
     "gen_timeout": 3000,
     "rule": "directory trees materialised in a scratch directory and scanned by the REAL binary (10 s watchdog, stdin closed): random "
